@@ -179,6 +179,45 @@ fn s_markers(t: &mut Tape, ctx: &mut Ctx) -> Result<(), Failure> {
     if in_fn {
         ctx.label("site-inside-function");
     }
+    // where the sites of this case are (classes of the property's quantifier)
+    {
+        let mut fold_fns: HashSet<String> = HashSet::new();
+        let mut loop_fns: HashSet<String> = HashSet::new();
+        let mut calls: std::collections::HashMap<String, u32> = std::collections::HashMap::new();
+        walk_program(&g.prog, &mut |e| {
+            if let Expr::Call(name, _) = e {
+                match name {
+                    CallName::Fold(f, _) => {
+                        fold_fns.insert(f.clone());
+                    }
+                    CallName::ForWhile(f) => {
+                        loop_fns.insert(f.clone());
+                    }
+                    CallName::Fn(f) => *calls.entry(f.clone()).or_default() += 1,
+                    _ => {}
+                }
+            }
+        });
+        let mut kinds: HashSet<String> = HashSet::new();
+        let (mut in_fold, mut in_loop, mut several, mut multi_line) = (false, false, false, false);
+        for st in &reachable_sites {
+            kinds.insert(format!("site-kind:{:?}", st.kind));
+            if let Some(f) = &st.in_function {
+                in_fold |= fold_fns.contains(f);
+                in_loop |= loop_fns.contains(f);
+                several |= calls.get(f).copied().unwrap_or(0) >= 2;
+            }
+            multi_line |= text[st.start..st.end].contains('\n');
+        }
+        for k in kinds {
+            ctx.label(&k);
+        }
+        for (flag, name) in [(in_fold, "site-inside-fold-body"), (in_loop, "site-inside-loop-body"), (several, "site-in-function-called-several-times"), (multi_line, "site-spans-several-lines")] {
+            if flag {
+                ctx.label(name);
+            }
+        }
+    }
     ctx.label_n("markers", markers.len() as u64);
     ctx.sample(text.len() as u64, || json!({"style": style.describe(), "markers": markers.len(), "tracked_sites": reachable_sites.len(), "program": truncate(&text, 1000)}));
     Ok(())
@@ -255,6 +294,6 @@ pub fn def() -> PropertyDef {
         rule: "stream many-sites: programs with 2 ... 700 statements (assert! + jet, dbg!, unwrap; in main or in a function called twice), i.e. up to 933 tracked call sites with pairwise distinct texts: the number of distinct markers and of distinct marker texts must equal the number of sites. stream markers: generated programs (general and small family: call sites in main, in helper functions called 0 / 1 / several times, inside fold and loop bodies) rendered with varied layout (multi-line calls, one-line programs, tabs, CRLF, comments inside calls). Oracles: (a) for every witness assignment of the case the verdict with debug symbols equals the verdict without and the reference interpreter's; (b) markers = hidden CMRs of assertl nodes of the debug build's commit() other than the fail CMR of unwrap*: each is a key of debug_symbols(), its text equals modulo whitespace the source text of a tracked call site recorded by the renderer with byte offsets (for dbg! also the argument text), its kind is that site's kind, and per distinct call text the number of distinct markers equals the number of tracked sites reachable from main (so distinct sites have distinct markers and every reachable site has one); (c) for dbg! / unwrap_left / unwrap_right markers, map_value applied to the structural form of a generated value of the recorded type returns that value. evaluations = executions + markers checked. Non-trivial = >= 2 tracked call sites, at least one inside a function; distinct by digest.",
         assumptions: &["simplicity-lang 0.4.0 keeps its execution tracker private, so the value that arrives at a marker at run time is not observed; dbg!'s transparency is covered by (a)"],
         streams,
-        health: &[("markers", "site-inside-function", 100), ("markers", "map_value:checked", 100)],
+        health: &[("markers", "site-inside-function", 100), ("markers", "map_value:checked", 100), ("markers", "site-inside-fold-body", 50), ("markers", "site-inside-loop-body", 50), ("markers", "site-in-function-called-several-times", 50), ("markers", "site-spans-several-lines", 500)],
     }
 }
